@@ -360,4 +360,35 @@ def reportsAlong (report : ι → β) : ι → List (ι → Except PyErr ι) →
 
 end session
 
+/-! ## the caller's array objects (argument identity, buffers refilled in place)
+
+Python hands OBJECTS to the code: the same array object may arrive again with other
+contents (`buf[...] = new` before every call), one object may be handed over in two
+roles (`calc_SINR(X, X)`), the caller may overwrite it right after the call.  In the
+model a call reads what the object holds AT CALL TIME and nothing else: there is no
+memo keyed on the object, no reference kept, no work done in place on an argument. -/
+section heap
+variable {ι β : Type}
+
+/-- the caller's memory: array objects are addresses, `h a` is what the object at `a` holds now -/
+abbrev Heap (ι : Type) := Nat → ι
+
+/-- `buf[...] = v`: the same object, other contents -/
+def refill (h : Heap ι) (a : Nat) (v : ι) : Heap ι := fun b => if b = a then v else h b
+
+/-- a call that is handed the object at address `a` -/
+def callOn (report : ι → β) (h : Heap ι) (a : Nat) : β := report (h a)
+
+/-- a call that is handed two objects (precoders and filters, `Nr` and `Nt`, path loss and
+    external path loss); they may be one and the same object -/
+def callOn2 (report : ι → ι → β) (h : Heap ι) (a b : Nat) : β := report (h a) (h b)
+
+/-- the loop of a caller that keeps ONE buffer at `a`: refill it with `vs[0]`, call, refill it
+    with `vs[1]`, call, … — the list of everything that was returned -/
+def refillLoop (report : ι → β) (a : Nat) : Heap ι → List ι → List β
+  | _, [] => []
+  | h, v :: vs => callOn report (refill h a v) a :: refillLoop report a (refill h a v) vs
+
+end heap
+
 end PyPhysim.Sinr
